@@ -1,6 +1,39 @@
 (* C05 — no variable is used out of scope, shadowed, or with its declaration
    skipped.  Model: Model/VarScope.v (src/alpha/scoper/variable_references.rs). *)
-From PV Require Import Base.Common Model.VarScope.
+From PV Require Import Base.Common Model.VarScope Proofs.VarScopeProofs.
+
+(* The analyzer (scope stack with resolution ids; per label the intersection of
+   the variables in scope at every goto; pruning at the label; poisoning on use)
+   emits exactly the diagnostics of the forward specification
+     - a use resolves to the outermost/earliest visible binding of that name
+       (E402 if there is none), a declaration is a duplicate iff the name is
+       visible (E422, E424 for parameters),
+     - a binding is "skipped" at a label of its own block iff a goto to that label
+       was seen before the binding was declared; a use of a skipped binding is
+       E482, reported once until the binding is skipped again,
+   for every program in which the label scoper gave each label declaration its
+   own id (the check monitors this hypothesis on every real input). *)
+Theorem C05_model_eq_spec : forall consts fs,
+  labels_once fs -> an_program consts fs = spec_program consts fs.
+Proof. exact an_program_eq_spec_once. Qed.
+
+Theorem C05_labels_once_iff : forall fs, labels_once fs <-> NoDup (label_ids (events fs)).
+Proof. exact labels_once_iff. Qed.
+
+(* The hypothesis is needed: with a label id declared twice the two differ. *)
+Theorem C05_hypothesis_needed : exists fs, an_program [] fs <> spec_program [] fs.
+Proof. exact an_program_neq_spec_without_wf. Qed.
+
+Theorem C05_undefined_iff : forall x st,
+  snd (use x st) = [E402] <-> find_name x (stack st) = None.
+Proof. exact use_undefined_iff. Qed.
+
+Theorem C05_duplicate_iff : forall x st,
+  snd (declare x st) = true <-> exists i, find_name x (stack st) = Some i.
+Proof. exact declare_dup_iff. Qed.
+
+Check C05_model_eq_spec : forall consts fs,
+  labels_once fs -> an_program consts fs = spec_program consts fs.
 
 (* Non-vacuity / regression examples computed by the model. *)
 Example C05_example_skip :
@@ -12,3 +45,13 @@ Example C05_example_scope :
   an_program [5]%N [{| params := [6; 6]; body := [SBlock [SDecl 7 [8]]; SUse [7; 5; 6]; SDecl 5 []]; ret := [] |}]%N
   = [E424; E402; E402; E422].
 Proof. vm_compute. reflexivity. Qed.
+
+Example C05_example_hypothesis :
+  labels_once [{| params := []; body := [SGoto 1; SDecl 7 []; SLabel 1; SBlock [SGoto 2; SUse [7]]; SLabel 2]; ret := [] |}]%N.
+Proof. vm_compute. reflexivity. Qed.
+
+Print Assumptions C05_model_eq_spec.
+Print Assumptions C05_labels_once_iff.
+Print Assumptions C05_hypothesis_needed.
+Print Assumptions C05_undefined_iff.
+Print Assumptions C05_duplicate_iff.
